@@ -104,6 +104,16 @@ func backendProp(b backendSpec, meaning string) propFunc {
 		r.floor("irfield.read."+b.Name, 90)
 		c.runIRFieldReadSel(r, "irfield.decl", b.Name, irFieldReadExceptions, irDeclStructs)
 		r.floor("irfield.decl."+b.Name, 25)
+		if b.Name == "glsl" {
+			r.Clauses = append(r.Clauses, "no glued signs (E93): where the GLSL writer puts a sign directly before substituted expression text (\"-%s\", \"-\" + text), the same function looks at how that text starts (strings.HasPrefix) - \"-\" before \"-5\" is the decrement operator")
+			c.runPrefixGlue(r, "parens.prefixglue", b.Pkg)
+			r.floor("parens.prefixglue", 1)
+		}
+		if b.Name == "glsl" || b.Name == "hlsl" {
+			r.Clauses = append(r.Clauses, epSelectClause)
+			c.runEPSelectAgree(r, "epselect.agree", b.Pkg)
+			r.floor("epselect.agree", 4)
+		}
 		if b.Name == "glsl" || b.Name == "hlsl" || b.Name == "msl" {
 			r.Clauses = append(r.Clauses, "textures as arguments (E65): a function that answers which image type an expression has by looking for the global variable behind it also answers for a function argument (an arm for ExprFunctionArgument, the expression's resolved type, or a callee that does)")
 			c.runImageTypeViaGlobal(r, "imagetype.viaglobal", inPkgs(b.Name))
@@ -245,6 +255,9 @@ const irFieldReadClause = "IR fields reach the output (E61): for every IR expres
 var resultPlaceholder = "result placeholder: the value is produced by the statement that names this expression as its Result (the statement's own Fun / Function / operands say the same thing)"
 
 var irFieldReadExceptions = map[string]string{
+	"spirv:EntryPoint.MeshInfo":    meshSkipped,
+	"spirv:EntryPoint.TaskPayload": meshSkipped,
+	"msl:EntryPoint.Workgroup":     "Metal takes the threadgroup size from the dispatch call; the shading language has no declaration for it (the size is returned to the caller through the IR)",
 	"spirv:ExprAtomicResult.Comparison":         resultPlaceholder,
 	"spirv:ExprCallResult.Function":             resultPlaceholder,
 	"spirv:ExprSubgroupOperationResult.Type":    resultPlaceholder,
@@ -270,3 +283,7 @@ var irFieldReadExceptions = map[string]string{
 	"glsl:StmtRayQuery.Query":                   "GLSL has no ray queries: writeRayQuery returns an error",
 	"glsl:StmtRayQuery.Fun":                     "GLSL has no ray queries: writeRayQuery returns an error",
 }
+
+const meshSkipped = "the SPIR-V backend skips task and mesh entry points altogether (it emits neither an OpEntryPoint nor a function for them), so the mesh-stage data has no output to appear in"
+
+const epSelectClause = "one meaning of the empty selection (E92): within a backend package every loop over the module's entry points that filters on the entry-point option selects the same set when the option is empty - if one site stops at the first entry point that passes the filter (the reachable-set builder), no site goes on over all of them"
